@@ -69,7 +69,10 @@ var verifMetaLines = []string{"##gff-version", "##gff-version 2", "##gff-version
 func VerifC03_GffStructured() {
 	var text []byte
 	mustErr := false
-	if verifParam("meta") == 1 {
+	if verifParam("meta") == 2 {
+		// sequence-region start spelled with two arbitrary printable bytes
+		text = append(append([]byte("##sequence-region a "), verifByte("sym0", 0x21, 0x7e), verifByte("sym1", 0x21, 0x7e)), []byte(" 9\n")...)
+	} else if verifParam("meta") == 1 {
 		k := verifChoice("metaline", len(verifMetaLines))
 		text = append([]byte(verifMetaLines[k]), '\n')
 		switch verifMetaLines[k] {
@@ -84,7 +87,7 @@ func VerifC03_GffStructured() {
 		}
 		ncols := 8 + verifChoice("extra", 3)
 		use := append([][]byte(nil), cols[:ncols]...)
-		mutation := verifChoice("mutation", 7)
+		mutation := verifChoice("mutation", 8)
 		switch mutation {
 		case 1:
 			k := verifChoice("delcol", ncols)
@@ -106,6 +109,9 @@ func VerifC03_GffStructured() {
 			}
 		case 5:
 			use[5] = []byte([]string{"1.5", "x", "1e400", "-0", "Inf"}[verifChoice("score", 5)])
+		case 7: // a coordinate column spelled with two arbitrary printable bytes ("00", "-0", "+5", "0x", ...)
+			k := 3 + verifChoice("symcol", 2)
+			use[k] = []byte{verifByte("sym0", 0x21, 0x7e), verifByte("sym1", 0x21, 0x7e)}
 		}
 		line := bytes.Join(use, []byte{'\t'})
 		if mutation == 6 {
